@@ -18,7 +18,7 @@ Fixpoint sendp_fx_run (p : pkt) (cur : option pkt) (fx : list sendp_fx) : option
   | [] => (cur, [])
   | FxSetCurrent :: t => sendp_fx_run p (Some p) t
   | FxClearCurrent :: t => sendp_fx_run p None t
-  | FxOutPut :: t => let r := sendp_fx_run p cur t in (fst r, OForward p :: snd r)
+  | FxOutPut _ _ :: t => let r := sendp_fx_run p cur t in (fst r, OForward p :: snd r)
   end.
 
 (* the child's next request as its state in the automaton: `yield timeout(d)` at point 1 = transmitting until now + d -- the
@@ -85,7 +85,7 @@ Qed.
 (* ---- explicitly: the order of the effects, the delay, the counters ---------------------------------------------- *)
 Lemma sendp_explicit : forall (c : mq_cfg) (s : mq) (p : pkt),
   (exists d, sendp_gen 0 c s p = (sendp_fields s, [FxSetCurrent], NxYield (RqTimeout d) PP1) /\ d == tx_time c p) /\
-  snd (fst (sendp_gen 1 c s p)) = [FxOutPut; FxClearCurrent] /\
+  snd (fst (sendp_gen 1 c s p)) = [FxOutPut (mqc s (flow p) - 1) (mqb s (flow p) - psize p); FxClearCurrent] /\
   snd (sendp_gen 1 c s p) = NxExit /\
   sd_queue_count (fst (fst (sendp_gen 1 c s p))) (flow p) = (mqc s (flow p) - 1)%Z /\
   sd_queue_byte_size (fst (fst (sendp_gen 1 c s p))) (flow p) = (mqb s (flow p) - psize p)%Z /\
@@ -96,6 +96,7 @@ Proof.
   unfold sendp_gen, gen_Scheduler_send_packet_from_0, gen_Scheduler_send_packet_from_1, sendp_fields, gen_upd. cbnq.
   repeat split.
   - eexists; split; [reflexivity|]. unfold tx_time. rewrite ?inject_Z_mult. unfold Qdiv. ring.
+  - rewrite Z.eqb_refl. reflexivity.
   - rewrite Z.eqb_refl. reflexivity.
   - rewrite Z.eqb_refl. reflexivity.
   - destruct (Z.eqb_spec g (flow p)); [contradiction|reflexivity].
